@@ -36,4 +36,30 @@ BLOCKS = {
             ],
         },
     },
+    "_rwg_final_block": {
+        "function": ("bempp_cl.api.space.maxwell_spaces", "_compute_rwg0_space_data"),
+        "loop": ("_np.flatnonzero(support)", 1),
+        "params": ["element_index", "element_edges", "edge_dofs", "edge_neighbors", "edge_neighbors_ptr", "support", "local_multipliers", "local2global_map"],
+        "returns": ["local_multipliers", "local2global_map"],
+        "contract": {
+            "opaque_ok": True,
+            "args": {"element_index": ("int",), "element_edges": ("arr2", (3, "N")), "edge_dofs": ("arr1",), "edge_neighbors": ("arr1",), "edge_neighbors_ptr": ("arr1",),
+                     "support": ("arr1",), "local_multipliers": ("arr2", ("N", 3)), "local2global_map": ("arr2", ("N", 3))},
+            "requires": ["0 <= element_index and element_index < N",
+                         "forall(0, 3, lambda j: 0 <= element_edges[j, element_index] and element_edges[j, element_index] < len(edge_dofs))",
+                         # rows of an element not processed yet are still zero (allocated with zeros, flatnonzero lists every element once)
+                         "forall(0, 3, lambda j: local_multipliers[element_index, j] == 0)",
+                         # the first loop removed elements without any dof from the support
+                         "exists(0, 3, lambda j: edge_dofs[element_edges[j, element_index]] != -1)"],
+            "result": ("tuple", 2),
+            "ensures": [
+                "forall(0, 3, lambda j: (result_0[element_index, j] != 0) == (edge_dofs[element_edges[j, element_index]] != -1))",
+                "forall(0, 3, lambda j: result_0[element_index, j] == 0 or result_0[element_index, j] == 1 or result_0[element_index, j] == -1)",
+                "forall(0, 3, lambda j: implies(edge_dofs[element_edges[j, element_index]] != -1, result_1[element_index, j] == edge_dofs[element_edges[j, element_index]]))",
+                # C16 slot cover
+                "forall(0, 3, lambda j: exists(0, 3, lambda i: result_0[element_index, i] != 0 and result_1[element_index, i] == result_1[element_index, j]))",
+                "forall(0, N, lambda e: implies(e != element_index, forall(0, 3, lambda j: result_0[e, j] == old_local_multipliers[e, j] and result_1[e, j] == old_local2global_map[e, j])))",
+            ],
+        },
+    },
 }
